@@ -71,6 +71,14 @@ RULE = ("model: the merge loop as a transition system over ALL upper-triangular 
         "in the documented pair order; non-trivial = matrix with a tie or an infinity or max_dist given")
 
 
+def _canary(rec):
+    for f in rec["fits"]:
+        if f["kind"] == "hier" and f["events"] and f["events"][0][2] >= 0:
+            f["events"][0][2] += 1
+            return rec
+    return None
+
+
 def judge(ctx, src, its):
     ctx.log("running %d clustering histories" % len(its))
     outs = core.pool_map(src, "harness.hx", "run_c15", its, chunksize=20)
@@ -87,7 +95,7 @@ def judge(ctx, src, its):
         records.append(rec)
         ctx.evaluations += len(rec["routes"])
     ctx.log("Act T: TLC judges %d records (%d fits)" % (len(records), ctx.evaluations))
-    res = tlc.validate_traces("HTrace", "HTrace.cfg", records, chunk=100, parallel=14)
+    res = tlc.validate_traces("HTrace", "HTrace.cfg", records, chunk=100, parallel=14, canary_fields=[_canary])
     ctx.add_tv(res)
     classify(ctx, by_id, res["fails"])
     ctx.nontrivial = {it["id"] for it in its if it["n"] > 2}
